@@ -1,3 +1,270 @@
 import Driver.Common
-/-! Driver for property C15 (stub: the model for this property is not built yet). -/
-def main : IO Unit := Driver.run (fun (s : Unit) _ => (s, "unimplemented")) ()
+import TxdbusModel.Intro.Xml
+/-!
+Driver for property C15: runs the code model of interface.py / introspection.py on one case per line.
+
+Strings travel as tokens `=<chars>`: characters of `[A-Za-z0-9_./(){}]` raw, every other one as `%XXXXXX`
+(6 hex digits of the code point); the empty string is `=`.
+
+Input lines
+  doc <replace> <path> K <n> <ifacedef>*n X <n> (<objpath> <n> <ifacedef>*n)*n Q <n> (<filter|-> <method> <nargs>)*n
+  evs <replace> K <n> <ifacedef>*n E <n> (S <name> <n> (<key> <value>)*n | E <name>)*n
+  ifacedef := <name> <n> <op>*n
+  op       := m <name> <in> <out> | s <name> <sig> | p <name> <sig> <r> <w> <t|f|i> | dm <name> | ds <name>
+              | dp <name> | x
+Output
+  doc:  `none` | `err <kind>` | `ok <events>|<result>|<calls>`   (result may be `err <kind>`)
+  evs:  <result>
+  events := event;event;…     event := S,<name>,<k>=<v>,… | E,<name>
+  result := R,<ref>,…|C,<name>=<ref>,…|H,<iface>;<iface>;…       ref := k<i> (known object i) | n<j> (j-th new object)
+  iface  := <name>!<method>+…!<signal>+…!<property>+…   method := name:in:out:nargs:nret   signal := name:sig:nargs
+            property := name:sig:access:<emits>   emits := s<str> | bT | bF
+  calls  := Q,<x>,…   x := A (AttributeError) | T (TypeError) | S:<iface>:<sigIn>:<sigOut>
+-/
+open Txdbus Txdbus.Intro
+
+namespace Driver.C15
+
+def safeChar (c : Char) : Bool :=
+  c.isAlphanum || c == '_' || c == '.' || c == '/' || c == '(' || c == ')' || c == '{' || c == '}'
+
+def encChars (cs : List Char) : List Char :=
+  cs.flatMap fun c =>
+    if safeChar c then [c] else
+      let n := c.toNat
+      ['%', nibble (n / 1048576 % 16), nibble (n / 65536 % 16), nibble (n / 4096 % 16),
+       nibble (n / 256 % 16), nibble (n / 16 % 16), nibble (n % 16)]
+
+def enc (cs : List Char) : String := String.ofList (encChars cs)
+
+def decChars : Nat → List Char → Option (List Char)
+  | 0, cs => if cs.isEmpty then some [] else none
+  | _ + 1, [] => some []
+  | f + 1, '%' :: a :: b :: c :: d :: e :: g :: t => do
+    let ds ← [a, b, c, d, e, g].mapM hexDigit?
+    let n := ds.foldl (fun acc x => acc * 16 + x) 0
+    let r ← decChars f t
+    pure (Char.ofNat n :: r)
+  | _ + 1, '%' :: _ => none
+  | f + 1, c :: t => do
+    let r ← decChars f t
+    pure (c :: r)
+
+def decTok (s : String) : Option (List Char) :=
+  match s.toList with
+  | '=' :: r => decChars (r.length + 1) r
+  | _ => none
+
+abbrev P := StateT (List String) (Except String)
+
+def tok : P String := do
+  match (← get) with
+  | [] => throw "unexpected end of line"
+  | t :: ts => set ts; pure t
+
+def str : P (List Char) := do
+  let t ← tok
+  match decTok t with
+  | some s => pure s
+  | none => throw s!"bad string token {t}"
+
+def nat : P Nat := do
+  let t ← tok
+  match t.toNat? with
+  | some n => pure n
+  | none => throw s!"bad number {t}"
+
+def flag : P Bool := do
+  let t ← tok
+  if t == "1" then pure true else if t == "0" then pure false else throw s!"bad flag {t}"
+
+def expect (s : String) : P Unit := do
+  let t ← tok
+  if t == s then pure () else throw s!"expected {s}, got {t}"
+
+def many {α : Type} (p : P α) : Nat → P (List α)
+  | 0 => pure []
+  | n + 1 => do
+    let a ← p
+    let r ← many p n
+    pure (a :: r)
+
+def counted {α : Type} (p : P α) : P (List α) := do
+  let n ← nat
+  many p n
+
+def op : P Op := do
+  let t ← tok
+  if t == "m" then
+    let n ← str; let a ← str; let r ← str
+    pure (.addMethod (Method.new n a r))
+  else if t == "s" then
+    let n ← str; let a ← str
+    pure (.addSignal (Signal.new n a))
+  else if t == "p" then
+    let n ← str; let sg ← str; let r ← flag; let w ← flag
+    let e ← tok
+    let ea ← if e == "t" then pure EmitsArg.true else if e == "f" then pure EmitsArg.false
+             else if e == "i" then pure EmitsArg.invalidates else throw s!"bad emits {e}"
+    pure (.addProperty (Property.new n sg r w ea))
+  else if t == "dm" then
+    let n ← str; pure (.delMethod n)
+  else if t == "ds" then
+    let n ← str; pure (.delSignal n)
+  else if t == "dp" then
+    let n ← str; pure (.delProperty n)
+  else if t == "x" then pure .getXml
+  else throw s!"bad op {t}"
+
+/-- an interface definition: the name and the operations that build it -/
+def ifaceDef : P (List Char × List Op) := do
+  let n ← str
+  let ops ← counted op
+  pure (n, ops)
+
+def build (d : List Char × List Op) : Except Err Cached := (Cached.new d.1).applyAll d.2
+
+def buildAll : List (List Char × List Op) → Except Err (List Cached)
+  | [] => .ok []
+  | d :: ds =>
+    match build d with
+    | .error e => .error e
+    | .ok c =>
+      match buildAll ds with
+      | .error e => .error e
+      | .ok cs => .ok (c :: cs)
+
+def buildObjs : List (List Char × List (List Char × List Op)) → Except Err (List (List Char × List Cached))
+  | [] => .ok []
+  | (p, ds) :: r =>
+    match buildAll ds with
+    | .error e => .error e
+    | .ok cs =>
+      match buildObjs r with
+      | .error e => .error e
+      | .ok rs => .ok ((p, cs) :: rs)
+
+def errName : Err → String
+  | .split .typeError => "typeError"
+  | .split .stopIteration => "stopIteration"
+  | .keyError => "keyError"
+  | .attributeError => "attributeError"
+  | .unmodelled => "unmodelled"
+
+def sep (s : String) (l : List String) : String := s.intercalate l
+
+def showEvent : Event → String
+  | .start n a => sep "," ("S" :: enc n :: a.map fun (k, v) => enc k ++ "=" ++ enc v)
+  | .stop n => "E," ++ enc n
+
+def showEvents (es : List Event) : String := sep ";" (es.map showEvent)
+
+def showEmits : Emits → String
+  | .str s => "s" ++ enc s
+  | .bool true => "bT"
+  | .bool false => "bF"
+
+def showInt (i : Int) : String := toString i
+
+def showIface (i : Interface) : String :=
+  sep "!" [enc i.name,
+    sep "+" (i.methods.map fun m => sep ":" [enc m.name, enc m.sigIn, enc m.sigOut, showInt m.nargs, showInt m.nret]),
+    sep "+" (i.signals.map fun s => sep ":" [enc s.name, enc s.sig, showInt s.nargs]),
+    sep "+" (i.properties.map fun p => sep ":" [enc p.name, enc p.sig, enc p.access, showEmits p.emits])]
+
+def showRef (nk : Nat) (id : Nat) : String :=
+  if id < nk then "k" ++ toString id else "n" ++ toString (id - nk)
+
+def showResult (nk : Nat) (st : HState) : String :=
+  sep "|" [sep "," ("R" :: st.interfaces.map (showRef nk)),
+           sep "," ("C" :: st.known.map fun (k, v) => enc k ++ "=" ++ showRef nk v),
+           "H," ++ sep ";" ((st.heap.drop nk).map showIface)]
+
+/-- the cache before the parse: known definition `j` is object `j`; a later definition of the same
+name overwrites the entry (`knownInterfaces[name] = obj` in list order) -/
+def knownOf (ks : List Cached) : List (List Char × Nat) :=
+  (ks.zipIdx).foldl (fun acc (c, j) => kset acc c.iface.name j) []
+
+def query : P (Option (List Char) × List Char × Nat) := do
+  let f ← tok
+  let filter ← if f == "-" then pure none else
+    match decTok f with
+    | some s => pure (some s)
+    | none => throw s!"bad filter {f}"
+  let m ← str
+  let n ← nat
+  pure (filter, m, n)
+
+def showCall : CallCheck → String
+  | .noSuchMethod => "A"
+  | .wrongCount => "T"
+  | .sent i a r => sep ":" ["S", enc i, enc a, enc r]
+
+def docCase : P String := do
+  let replace ← flag
+  let path ← str
+  expect "K"
+  let kdefs ← counted ifaceDef
+  expect "X"
+  let objs ← counted (do let p ← str; let ds ← counted ifaceDef; pure (p, ds))
+  expect "Q"
+  let qs ← counted query
+  match buildAll kdefs with
+  | .error e => pure ("err " ++ errName e)
+  | .ok ks =>
+    match buildObjs objs with
+    | .error e => pure ("err " ++ errName e)
+    | .ok exported =>
+      match generate path exported with
+      | .error e => pure ("err " ++ errName e)
+      | .ok none => pure "none"
+      | .ok (some evs) =>
+        let heap := ks.map (·.iface)
+        match getInterfaces heap (knownOf ks) replace evs with
+        | .error e => pure (sep "|" ["ok " ++ showEvents evs, "err " ++ errName e])
+        | .ok st =>
+          let rec_ := st.result.filterMap id
+          let calls := qs.map fun (f, m, n) => showCall (callCheck rec_ f m n)
+          pure (sep "|" ["ok " ++ showEvents evs, showResult ks.length st, sep "," ("Q" :: calls)])
+
+def event : P Event := do
+  let t ← tok
+  if t == "S" then
+    let n ← str
+    let a ← counted (do let k ← str; let v ← str; pure (k, v))
+    pure (.start n a)
+  else if t == "E" then
+    let n ← str
+    pure (.stop n)
+  else throw s!"bad event {t}"
+
+def evsCase : P String := do
+  let replace ← flag
+  expect "K"
+  let kdefs ← counted ifaceDef
+  expect "E"
+  let evs ← counted event
+  match buildAll kdefs with
+  | .error e => pure ("err " ++ errName e)
+  | .ok ks =>
+    match getInterfaces (ks.map (·.iface)) (knownOf ks) replace evs with
+    | .error e => pure ("err " ++ errName e)
+    | .ok st => pure (showResult ks.length st)
+
+def line (s : String) : String :=
+  match words s with
+  | "doc" :: r =>
+    match (docCase.run r) with
+    | .ok (o, []) => o
+    | .ok (_, _) => "parse-error trailing tokens"
+    | .error e => "parse-error " ++ e
+  | "evs" :: r =>
+    match (evsCase.run r) with
+    | .ok (o, []) => o
+    | .ok (_, _) => "parse-error trailing tokens"
+    | .error e => "parse-error " ++ e
+  | _ => "parse-error unknown command"
+
+end Driver.C15
+
+def main : IO Unit := Driver.run (fun (s : Unit) l => (s, Driver.C15.line l)) ()
